@@ -446,6 +446,8 @@ def entry_code(s):
     if s.bump_entry:
         lines.append('v = v + 1')
         lines.append('w.append(v)')
+        lines.append('u[0].append(v)')
+        lines.append('box.n = box.n + 1')
         lines.append("z = setdefault('z', 0) + 1")
     return '\n'.join(lines + _sends_code(s.entry_sends))
 
@@ -459,6 +461,8 @@ def exit_code(s):
     if s.bump_exit:
         lines.append('v = v + 2')
         lines.append('w.append(v)')
+        lines.append('u[0].append(v)')
+        lines.append('box.n = box.n + 1')
     return '\n'.join(lines + _sends_code(s.exit_sends))
 
 
@@ -469,6 +473,8 @@ def action_code(t):
     if t.bump:
         lines.append('v = v + 3')
         lines.append('w.append(v)')
+        lines.append('u[0].append(v)')
+        lines.append('box.n = box.n + 1')
         lines.append("z = setdefault('z', 0) + 1")
     return '\n'.join(lines + _sends_code(t.sends))
 
@@ -494,6 +500,8 @@ def tinv_code(j, a, i):
 def cond_code(j, kind, owner_is_transition, with_old):
     """contract condition j. kind: 'pre' | 'post' | 'inv'.  __old__ is only available in post/inv."""
     old = '__old__' if (with_old and kind != 'pre') else 'None'
+    if old == '__old__' and j % 3 == 1:
+        old = '(lambda: __old__)()'      # a reference from a nested scope is a reference too
     ev = 'event' if owner_is_transition else 'None'
     return 'P.cond(%d, v, %s, %s)' % (j, old, ev)
 
@@ -538,7 +546,7 @@ def _trans_obj(model, t, with_old=True):
     return o
 
 
-PREAMBLE = 'v = 0\nw = []'
+PREAMBLE = 'v = 0\nw = []\nu = [[]]\nbox = P.newbox()'
 
 
 def build_api(sp, order=None, name='gen', preamble=None):
